@@ -98,8 +98,8 @@ def table_number_callback(model, cls, opname):
     if t[0] == "sub" and t[1][0] == "dict" and t[2] == ("param", fn.params.index("operation"), "operation") and fn.params.index("operation") == 3:
         for k, v in t[1][1]:
             if k == ("const", opname):
-                if v[0] == "opfn" and v[1] in OPFN:
-                    return OPFN[v[1]], False
+                if v[0] in ("opfn", "opfn-swapped") and v[1] in OPFN:
+                    return OPFN[v[1]], v[0] == "opfn-swapped"
     return None
 
 
